@@ -28,9 +28,13 @@ EXPLANATION += (
 EXPLANATION += (
     ' C13.4 also: the number -> ordinal translation is exact (rule of C14.4), so line numbers segyio rejects are rejected.'
 )
+EXPLANATION += (
+    ' C13.8 - attributes(field): every lookup in the store of variant header arrays by a key that comes from the caller holds, on every path, a fact that the key is stored there (membership test, or the FileOffset test of the template entry); otherwise a field that is constant through the file raises KeyError. C13.9 - text[0]: every character conversion between the stored textual header and the caller is total and gives one unit per stored byte (single-byte code pages; ascii only with errors=replace; no ignore / expanding handler; no multi-byte codec), so the 40 x 80 card layout survives.'
+)
 ASSUMPTIONS = ['segyio yields all lines for f.iline[:] whatever the sign of the line increment', 'names denote what they say']
-NOT_DECIDED = ('Kind/shape/key equality with segyio, which line numbers a stepped slice selects, attributes(field)[...], text, '
-               'bin, tools.dt values, parity of rejections.')
+NOT_DECIDED = ('Kind/shape/key equality with segyio, which line numbers a stepped slice selects, the values of '
+               'attributes(field)[...] and the characters of text[0] (segyio uses its own EBCDIC table), bin, tools.dt values, '
+               'parity of rejections.')
 
 WIRING = {'iline': 'IL', 'xline': 'XL', 'depth_slice': 'Z'}
 
@@ -54,6 +58,9 @@ def header_location(ctx):
 def run(ctx):
     P, G = ctx.P, ctx.G
     header_location(ctx)
+    from .. import fieldrules as FR
+    FR.constant_fields(ctx, 'C13.8')
+    FR.text_codec(ctx, 'C13.9')
     ctx.rule('C13.1', 'accessor triples carry one axis; emulator binds accessors to the attribute of that axis')
     ctx.rule('C13.2', 'default stop of an open-ended line slice lies beyond the last key in the direction of step')
     ctx.rule('C13.3', '2D files: iline / xline / depth_slice refuse with the dimensionality error')
